@@ -183,6 +183,11 @@ def judge(ctx, results, baseline, error_ok=lambda r: False, classify_extra=None,
         ctx.cov["baseline_deviations"]["by_kind"][b["kind"]] = ctx.cov["baseline_deviations"]["by_kind"].get(b["kind"], 0) + 1
         for x in v:
             if x["status"] == "ran" and x is not b and not same_answer(x["q"], x["_rows"], b["_rows"]):
+                x["_base_rows"] = b["_rows"]          # lets a class predicate compare with the baseline instead of the reference
+                ce = classify_extra(x) if classify_extra else None
+                if ce and ctx.is_known(ce[0]) and ce[1]:
+                    ctx.known_finding(ce[0], ctx.known[ce[0]])
+                    continue
                 nd += 1
                 if nd <= 2:
                     ctx.violation({"kind": "configurations disagree (and the baseline differs from the reference)",
@@ -221,6 +226,7 @@ def judge(ctx, results, baseline, error_ok=lambda r: False, classify_extra=None,
                        "samples": ctx.cov["error_samples"]}, found_input=False, tag="errors")
     for r in results:
         r.pop("_rows", None)
+        r.pop("_base_rows", None)
     return judged, errs, by_stmt
 
 def per_config_table(results, names):
